@@ -247,7 +247,7 @@ def single_assignment_locals(func: ast.FunctionDef) -> dict:
         stores = []
         if isinstance(n, ast.Assign):
             for t in n.targets:
-                stores += [x for x in ast.walk(t) if isinstance(x, ast.Name)]
+                stores += [x for x in ast.walk(t) if isinstance(x, ast.Name) and isinstance(x.ctx, ast.Store)]
         elif isinstance(n, (ast.AugAssign, ast.AnnAssign)):
             stores += [x for x in ast.walk(n.target) if isinstance(x, ast.Name) and isinstance(x.ctx, ast.Store)]
         elif isinstance(n, (ast.For, ast.comprehension)):
@@ -269,7 +269,19 @@ def single_assignment_locals(func: ast.FunctionDef) -> dict:
                 for x, v in zip(t.elts, st.value.elts):
                     if isinstance(x, ast.Name) and counts.get(x.id) == 1 and x.id not in params:
                         defs[x.id] = v
-    return defs
+    # a local whose object is updated in place (item / attribute store, augmented item store) does not keep
+    # the value of its defining expression - unless that expression is itself just a name for the object
+    mutated = set()
+    for n in ast.walk(func):
+        tg = n.targets if isinstance(n, ast.Assign) else [n.target] if isinstance(n, (ast.AugAssign, ast.AnnAssign)) else n.targets if isinstance(n, ast.Delete) else []
+        for t in tg:
+            for x in (t.elts if isinstance(t, (ast.Tuple, ast.List)) else [t]):
+                b = x
+                while isinstance(b, (ast.Subscript, ast.Attribute)):
+                    b = b.value
+                if b is not x and isinstance(b, ast.Name):
+                    mutated.add(b.id)
+    return {k: v for k, v in defs.items() if k not in mutated or isinstance(v, (ast.Attribute, ast.Name))}
 
 
 def expand_locals(e: ast.expr, defs: dict, depth: int = 0) -> ast.expr:
@@ -369,6 +381,11 @@ def inline_private_helpers(f: "FuncInfo", depth: int = 3, methods: bool = False,
                 if not returns_only_in_ifs(st.body) or not returns_only_in_ifs(st.orelse):
                     return False
                 continue
+            if isinstance(st, ast.With):
+                # a `with` block is transparent for returns (the context manager exits either way)
+                if not returns_only_in_ifs(st.body):
+                    return False
+                continue
             if isinstance(st, ast.Try) and any(isinstance(n, ast.Return) for n in ast.walk(st)):
                 if any(isinstance(n, ast.Return) for x in list(st.body) + list(st.finalbody) for n in ast.walk(x)):
                     return False
@@ -444,6 +461,12 @@ def inline_private_helpers(f: "FuncInfo", depth: int = 3, methods: bool = False,
                 ob, t_else = single_exit(list(st.orelse) + list(rest), targets)
                 out.append(ast.Try(body=st.body, handlers=handlers, orelse=ob, finalbody=st.finalbody))
                 return out, t_else
+            if isinstance(st, ast.With) and any(isinstance(n, ast.Return) for n in ast.walk(st)):
+                wb, tw = single_exit(list(st.body), targets)
+                out.append(ast.With(items=st.items, body=wb or [ast.Pass()]))
+                if tw:
+                    return out, True
+                continue
             if isinstance(st, ast.If) and any(isinstance(n, ast.Return) for n in ast.walk(st)):
                 rest = stmts[i + 1 :]
                 b, tb = single_exit(list(st.body), targets)
@@ -542,7 +565,7 @@ def inline_private_helpers(f: "FuncInfo", depth: int = 3, methods: bool = False,
             # the call was the operand of a `return`: the helper's own returns leave the caller directly
             if not ends(body):
                 body.append(ast.Return(value=ast.Constant(value=None)))
-        elif any(isinstance(n, ast.Return) for st in body[:-1] for n in ast.walk(st)):
+        elif any(isinstance(n, ast.Return) for st in body[:-1] for n in ast.walk(st)) or (body and not isinstance(body[-1], ast.Return) and any(isinstance(n, ast.Return) for n in ast.walk(body[-1]))):
             body, _all = single_exit(body, targets)
             if targets is not None and not _all:
                 body.append(ast.Assign(targets=_copy.deepcopy(targets), value=ast.Constant(value=None)))
@@ -814,6 +837,13 @@ def canonical_returns(func: ast.FunctionDef) -> ast.FunctionDef:
                 body = process(list(st.body) + rest, dict(env))
                 orelse = process(list(st.orelse) + rest, dict(env))
                 out.append(ast.copy_location(ast.If(test=subst(st.test, env), body=body or [ast.Pass()], orelse=orelse), st))
+                return out
+            if isinstance(st, ast.Return) and isinstance(st.value, ast.IfExp):
+                # `return a if c else b` is `if c: return a` / `else: return b`
+                v = subst(st.value, env)
+                arm_t = process([ast.copy_location(ast.Return(value=v.body), st)], {})
+                arm_f = process([ast.copy_location(ast.Return(value=v.orelse), st)], {})
+                out.append(ast.copy_location(ast.If(test=v.test, body=arm_t, orelse=arm_f), st))
                 return out
             if isinstance(st, ast.Return):
                 out.append(ast.copy_location(ast.Return(value=subst(st.value, env) if st.value is not None else None), st))
@@ -1383,9 +1413,14 @@ def inline_new_single_use_locals(func: ast.FunctionDef, keep=frozenset()) -> ast
                 if bad:
                     continue
                 before = order[: order.index(use)]
+                pure_calls = {"type", "len", "isinstance", "id", "tuple", "list", "dict", "set", "range", "min", "max", "abs", "float", "int", "str", "bool", "zip", "enumerate", "getattr", "hasattr"}
+
+                def effectful(n):
+                    return isinstance(n, (ast.Await, ast.NamedExpr)) or (isinstance(n, ast.Call) and not (isinstance(n.func, ast.Name) and n.func.id in pure_calls))
+
                 if any(isinstance(n, (ast.Call, ast.Await, ast.NamedExpr, ast.Subscript, ast.Attribute)) and id(n) not in anc for n in before):
                     # something else is evaluated first: only a side-effect-free binding may move past it
-                    if any(isinstance(n, (ast.Call, ast.Await, ast.NamedExpr)) for n in ast.walk(st.value)) and any(isinstance(n, (ast.Call, ast.Await, ast.NamedExpr)) and id(n) not in anc for n in before):
+                    if any(isinstance(n, (ast.Call, ast.Await, ast.NamedExpr)) for n in ast.walk(st.value)) and any(effectful(n) and id(n) not in anc for n in before):
                         continue
                 val = st.value
 
@@ -1571,6 +1606,90 @@ def fold_sum_loops(func: ast.FunctionDef, keep=frozenset()) -> ast.FunctionDef:
     return ast.fix_missing_locations(new) if changed else func
 
 
+def sink_tail_into_arms(func: ast.FunctionDef, keep=frozenset()) -> ast.FunctionDef:
+    """``if c: x = A`` / ``else: x = B`` followed by a short tail that ends in ``return`` and reads the new
+    local ``x``: the tail is duplicated into both arms (x renamed per arm), so that each arm is straight-line
+    code with single-assignment locals - what the other normalisers and the evaluators expect."""
+    import copy as _copy
+
+    params = {a.arg for a in ast.walk(func) if isinstance(a, ast.arg)}
+    counts = _store_counts(func)
+    changed = False
+    new = _copy.deepcopy(func)
+    for block in _blocks(new):
+        for i, st in enumerate(block):
+            if not (isinstance(st, ast.If) and st.orelse):
+                continue
+            tail = block[i + 1 :]
+            if not tail or len(tail) > 4 or not isinstance(tail[-1], ast.Return):
+                continue
+            if any(isinstance(n, (ast.For, ast.While, ast.FunctionDef, ast.Try, ast.With)) for x in tail for n in ast.walk(x)):
+                continue
+            arms = [st.body, st.orelse]
+            if any(arm and isinstance(arm[-1], (ast.Return, ast.Raise, ast.Continue, ast.Break)) for arm in arms):
+                continue
+
+            def top_names(arm):
+                out = {}
+                for x in arm:
+                    if isinstance(x, ast.Assign) and len(x.targets) == 1 and isinstance(x.targets[0], ast.Name):
+                        out[x.targets[0].id] = out.get(x.targets[0].id, 0) + 1
+                return out
+
+            n0, n1 = top_names(arms[0]), top_names(arms[1])
+            shared = {n for n in n0 if n in n1 and n0[n] == 1 and n1[n] == 1 and n not in keep and n not in params and counts.get(n) == 2}
+            if not shared:
+                continue
+            loads_tail = {n.id for x in tail for n in ast.walk(x) if isinstance(n, ast.Name) and isinstance(n.ctx, ast.Load)}
+            if not (shared & loads_tail):
+                continue
+            if any(isinstance(n, ast.Name) and isinstance(n.ctx, ast.Store) and n.id in shared for x in tail for n in ast.walk(x)):
+                continue
+            for k_, arm in enumerate(arms):
+                ren = {n: f"{n}__{k_ + 1}" for n in shared}
+
+                class Ren(ast.NodeTransformer):
+                    def visit_Name(self, n, ren=ren):  # noqa: N802
+                        if n.id in ren:
+                            return ast.copy_location(ast.Name(id=ren[n.id], ctx=n.ctx), n)
+                        return n
+
+                arm[:] = [Ren().visit(x) for x in arm] + [Ren().visit(_copy.deepcopy(x)) for x in tail]
+            del block[i + 1 :]
+            changed = True
+            break
+    return ast.fix_missing_locations(new) if changed else func
+
+
+def splat_literal_star_args(func: ast.FunctionDef) -> ast.FunctionDef:
+    """``f(a, *(b, c))`` / ``f(a, *[b, c])`` -> ``f(a, b, c)``; ``f(**{"k": v})`` -> ``f(k=v)``."""
+    import copy as _copy
+
+    if not any(isinstance(n, ast.Starred) and isinstance(n.value, (ast.Tuple, ast.List)) for n in ast.walk(func)) and not any(isinstance(c, ast.Call) and any(k.arg is None and isinstance(k.value, ast.Dict) for k in c.keywords) for c in ast.walk(func)):
+        return func
+
+    class T(ast.NodeTransformer):
+        def visit_Call(self, c):  # noqa: N802
+            self.generic_visit(c)
+            args = []
+            for a in c.args:
+                if isinstance(a, ast.Starred) and isinstance(a.value, (ast.Tuple, ast.List)) and not any(isinstance(e, ast.Starred) for e in a.value.elts):
+                    args.extend(a.value.elts)
+                else:
+                    args.append(a)
+            c.args = args
+            kws = []
+            for k in c.keywords:
+                if k.arg is None and isinstance(k.value, ast.Dict) and all(isinstance(x, ast.Constant) and isinstance(x.value, str) and x.value.isidentifier() for x in k.value.keys):
+                    kws.extend(ast.keyword(arg=x.value, value=v) for x, v in zip(k.value.keys, k.value.values))
+                else:
+                    kws.append(k)
+            c.keywords = kws
+            return c
+
+    return ast.fix_missing_locations(T().visit(_copy.deepcopy(func)))
+
+
 def hoist_leading_walrus(func: ast.FunctionDef) -> ast.FunctionDef:
     """``if (a := e) <op> ...:``  ->  ``a = e`` ; ``if a <op> ...:`` when the assignment expression is the
     first operand evaluated by the test (leftmost operand of comparisons / boolean operators /
@@ -1751,6 +1870,7 @@ class Program:
                     targets += list(c.methods.values()) + list(c.setters.values())
                 for f in targets:
                     keep_l = frozenset(pinned_locals.get(m.name, {}).get(f.qualname, ()))
+                    f.node = sink_tail_into_arms(f.node, keep=keep_l)
                     f.node = canon_ifexp_not(f.node)
                     f.node = unroll_const_table_dispatch(f.node, const_tables.get(m.name, {}))
                     f.node = expand_starred_tuple_args(f.node, keep=keep_l)
@@ -1761,6 +1881,7 @@ class Program:
                     f.node = expand_named_conditions(f.node, keep=keep_l)
                     f.node = inline_new_single_use_locals(f.node, keep=keep_l)
                     f.node = guard_continue_to_else(f.node)
+                    f.node = splat_literal_star_args(f.node)
                     f.node = dict_update_to_loop(f.node)
                     f.node = hoist_leading_walrus(desugar_reduce(unroll_method_tuple_loops(expand_self_aliases(f.node))))
                     f.node = _subst_exception_tuples(f.node, const_tuples.get(m.name, {}))
